@@ -3,6 +3,7 @@ import MorfuseModel.Sched.TimerLemmas
 import MorfuseModel.Unwind.Lemmas
 import MorfuseModel.Unwind.Spin
 import MorfuseModel.Unwind.Timing
+import MorfuseModel.Unwind.Potential
 /-!
 # C14 — runaway and over-deep scripts are stopped
 
@@ -601,5 +602,178 @@ theorem C14_unwind_activation_bounded_late (E : Env) (δ : Nat) (hL : E.cfg.maxE
 def exRecT : Env := { exRec with cfg := { exRec.cfg with maxExec := 3 }, inc := fun _ => 1 }
 example : (run exRecT 8 (startCall exRecT {} 0)).stack.filterMap (fun f => match f with | .vm t dl _ _ n => some (t, dl, n) | _ => none) =
     [(3, 9, 1), (2, 6, 2), (1, 3, 2)] := by decide
+
+/-! ## Round 3: one termination bound for programs that nest -/
+
+/-- the bound: `T0 + 1` top-level activations (the host call's thread and each thread the scheduler may
+    still resume from the timer list), each at most `N·W(maxStackDepth) + 4` steps with `N = L/δ + 1`,
+    `W(0) = 3`, `W(h+1) = N·W(h) + 6` — exponential in the nesting limit.  (Loose: time spent in nested
+    activations also counts against the outer deadlines, so real programs need only about
+    `2·(maxStackDepth + 1)·(L/δ + 2)` steps; the potential used in the proof does not exploit that.) -/
+def nestBound (L δ D T0 : Nat) : Nat := (T0 + 1) * ((L / δ + 1) * W (L / δ + 1) D + 4)
+
+theorem W_le_pow (N : Nat) : ∀ h, W N h ≤ 9 * (N + 1) ^ h
+  | 0 => by simp [W]
+  | h + 1 => by
+    have ih := W_le_pow N h
+    have h1 : 1 ≤ (N + 1) ^ h := Nat.one_le_pow _ _ (Nat.succ_pos _)
+    have h2 : N * W N h ≤ N * (9 * (N + 1) ^ h) := Nat.mul_le_mul_left N ih
+    simp only [W, Nat.pow_succ]
+    have h3 : 9 * ((N + 1) ^ h * (N + 1)) = N * (9 * (N + 1) ^ h) + 9 * (N + 1) ^ h := by
+      rw [Nat.mul_add, Nat.mul_one, Nat.mul_add, Nat.mul_comm ((N + 1) ^ h) N, ← Nat.mul_assoc, ← Nat.mul_assoc, Nat.mul_comm 9 N]
+    omega
+
+/-- **Every host call of a nesting program returns, within an explicit bound.**  Protection on, limit
+    `L > 0`, a clock that advances by at least `δ > 0` per reading, a program of the class `Nest` (decidable:
+    every opcode is non-yielding, a jump, `end`, `error "x" 1` or `thread l` with a valid label — no `wait`,
+    `waitthread`, `waittill`, `notify`, i.e. nothing that can re-time or wake a thread with zero delay), started in a
+    quiescent state (no current thread, nesting counter 0, no `waitthread` registrations) with `T0` threads in
+    the timer list: the host call has returned — normally or with `CommandOverflow` / `MaxStackDepth` /
+    abort — after at most `nestBound L δ maxStackDepth T0` steps, and then the nesting counter is 0 and no
+    thread is current. -/
+theorem C14_unwind_call_terminates_nested (E : Env) (δ : Nat) (hcls : Nest E.prog = true) (hp : E.cfg.prot = true)
+    (hL : E.cfg.maxExec ≠ 0) (hδ : 0 < δ) (hinc : ∀ i, E.inc i ≥ δ) (s0 : St) (label : Nat)
+    (hc : s0.cur = none) (hd : s0.depth = 0) (hj : NoJoin s0.threads) :
+    ∃ n, n ≤ nestBound E.cfg.maxExec δ E.cfg.maxDepth s0.timer.elems.length ∧
+      halted (run E n (startCall E s0 label)) = true ∧
+      ((run E n (startCall E s0 label)).stack = [] →
+        (run E n (startCall E s0 label)).depth = 0 ∧ (run E n (startCall E s0 label)).cur = none) := by
+  have C : Ctx E δ := ⟨hcls, hp, hL, hδ, hinc⟩
+  have hinv : Inv 0 (startCall E s0 label) := by rw [← hd]; exact startCall_inv E s0 label hc
+  -- the state after `ExecuteThread` has entered (or been refused by) the new VM
+  have hgs : GoodS (startCall E s0 label) := by
+    unfold startCall
+    apply enterSei_good
+    · simp [newThread, lowOK]
+    · simp only [newThread]; exact nojoin_append hj _ _ rfl
+    · rfl
+  obtain ⟨⟨htl, hub⟩, hcase⟩ := startCall_cases E s0 label
+  have htf : TopFetch δ E.cfg.maxExec (startCall E s0 label) := by
+    intro t dl ct n rest hst _
+    rcases hcase with ⟨h1, _⟩ | ⟨dl', ct', h1, _⟩
+    · rw [h1] at hst; cases hst
+    · rw [h1] at hst; cases hst
+      simp only [Nat.zero_mul]; exact Nat.pos_of_ne_zero hL
+  have hgood : Good E δ (startCall E s0 label) := ⟨hinv, startCall_allOK E δ hL hinc s0 label, hgs, htf⟩
+  have hphi : phi (E.cfg.maxExec / δ + 1) E.cfg.maxDepth (startCall E s0 label) ≤
+      nestBound E.cfg.maxExec δ E.cfg.maxDepth s0.timer.elems.length := by
+    have hT := Nat.mul_le_mul_right (Cw (E.cfg.maxExec / δ + 1) E.cfg.maxDepth) htl
+    have hW3 := W_ge3 (E.cfg.maxExec / δ + 1) E.cfg.maxDepth
+    have hmono : s0.timer.elems.length * ((E.cfg.maxExec / δ + 1) * W (E.cfg.maxExec / δ + 1) E.cfg.maxDepth + 3) ≤
+        s0.timer.elems.length * ((E.cfg.maxExec / δ + 1) * W (E.cfg.maxExec / δ + 1) E.cfg.maxDepth + 4) :=
+      Nat.mul_le_mul_left _ (by omega)
+    unfold nestBound
+    rw [Nat.add_mul, Nat.one_mul]
+    simp only [Cw] at hT
+    rcases hcase with ⟨h1, h2⟩ | ⟨dl', ct', h1, h2⟩
+    · unfold phi; rw [h1, h2]
+      split
+      · exact Nat.zero_le _
+      · simp only [Option.isSome_some, if_true, List.length_cons, List.length_nil]; omega
+    · unfold phi; rw [h1, h2]
+      split
+      · exact Nat.zero_le _
+      · simp only [Option.isSome_none, Bool.false_eq_true, if_false, pot, vmCount, Nat.sub_zero, Cw]; omega
+  obtain ⟨n, hn, hh⟩ := halts_within E δ C _ _ hgood hphi
+  refine ⟨n, hn, hh, fun hs => ?_⟩
+  exact inv_halted (run_inv E 0 n _ hinv) hs
+
+/-- the same for a frame (`ScriptContext::Execute`): the threads the scheduler resumes from the timer list -/
+theorem C14_unwind_frame_terminates_nested (E : Env) (δ : Nat) (hcls : Nest E.prog = true) (hp : E.cfg.prot = true)
+    (hL : E.cfg.maxExec ≠ 0) (hδ : 0 < δ) (hinc : ∀ i, E.inc i ≥ δ) (s0 : St)
+    (hc : s0.cur = none) (hd : s0.depth = 0) (hj : NoJoin s0.threads) :
+    ∃ n, n ≤ nestBound E.cfg.maxExec δ E.cfg.maxDepth s0.timer.elems.length ∧
+      halted (run E n (startExecute E s0)) = true := by
+  have C : Ctx E δ := ⟨hcls, hp, hL, hδ, hinc⟩
+  have hinv : Inv 0 (startExecute E s0) := by rw [← hd]; exact startExecute_inv E s0 hc
+  have hshape : ((startExecute E s0).stack = [.ctxExec] ∨ (startExecute E s0).stack = [.execRunning, .ctxExec]) ∧
+      (startExecute E s0).threads = s0.threads ∧ (startExecute E s0).exc = none ∧
+      (startExecute E s0).timer.elems = s0.timer.elems := by
+    simp only [startExecute, execRunningCall]
+    (repeat' split) <;> simp [tick, Sched.Timer.setTime]
+  obtain ⟨hstk, hthr, hexc, htim⟩ := hshape
+  have hgs : GoodS (startExecute E s0) := by
+    refine ⟨?_, by rw [hthr]; exact hj, by intro e he; rw [hexc] at he; cases he⟩
+    rcases hstk with h | h <;> (rw [h]; simp [StackG, topOK, lowOK])
+  have htf : TopFetch δ E.cfg.maxExec (startExecute E s0) := by
+    intro t dl ct n rest hst _
+    rcases hstk with h | h <;> (rw [h] at hst; cases hst)
+  have hgood : Good E δ (startExecute E s0) := ⟨hinv, startExecute_allOK E δ s0, hgs, htf⟩
+  have hphi : phi (E.cfg.maxExec / δ + 1) E.cfg.maxDepth (startExecute E s0) ≤
+      nestBound E.cfg.maxExec δ E.cfg.maxDepth s0.timer.elems.length := by
+    unfold phi nestBound Cw
+    rw [hexc, htim]
+    generalize (E.cfg.maxExec / δ + 1) * W (E.cfg.maxExec / δ + 1) E.cfg.maxDepth = X
+    generalize s0.timer.elems.length = T
+    simp only [Option.isSome_none, Bool.false_eq_true, if_false]
+    split
+    · exact Nat.zero_le _
+    · rw [Nat.add_mul, Nat.one_mul, Nat.mul_add, Nat.mul_add]
+      rcases hstk with h | h <;> (rw [h]; simp only [pot]; omega)
+  obtain ⟨n, hn, hh⟩ := halts_within E δ C _ _ hgood hphi
+  exact ⟨n, hn, hh⟩
+
+/-! ### non-vacuity -/
+/-- three levels of counted loops each spawning the next level (`for (i<3) thread l<k+1>`), 20 ms limit, clock +1:
+    in the class; the time spent in the children runs against the parents' deadlines, the level-0 thread is
+    interrupted; the call has returned after 51 steps, far below the bound -/
+def exFan : Env :=
+  { cfg := { prot := true, maxExec := 20, maxDepth := 5 }, inc := fun _ => 1,
+    prog := [[.setc 3, .loopTest 4, .spawn 1 false, .jmp 1, .done], [.setc 3, .loopTest 4, .spawn 2 false, .jmp 1, .done],
+             [.setc 3, .loopTest 4, .spawn 3 false, .jmp 1, .done], [.done]] }
+example : Nest exFan.prog = true := by decide
+set_option maxRecDepth 100000 in
+example : halted (run exFan 50 (startCall exFan {} 0)) = false ∧ halted (run exFan 51 (startCall exFan {} 0)) = true ∧
+    (run exFan 51 (startCall exFan {} 0)).exc = some .overflow ∧ (run exFan 51 (startCall exFan {} 0)).depth = 0 := by decide
+example : nestBound 20 1 5 0 = 283028197 := by decide
+/-- mutual recursion past the limit (`exRec` has a `waitthread`, so take the `thread`-only variant) -/
+def exRecN : Env := { exRec with prog := [[.nop, .spawn 1 false, .done], [.nop, .spawn 0 false, .done]], cfg := { exRec.cfg with maxExec := 50 }, inc := fun _ => 1 }
+example : Nest exRecN.prog = true ∧ halted (run exRecN 17 (startCall exRecN {} 0)) = true ∧
+    (run exRecN 17 (startCall exRecN {} 0)).exc = some .depth := by decide
+
+/-! ### why the class excludes zero-delay yields -/
+
+theorem step_of_halted (E : Env) (s : St) (h : halted s = true) : step E s = s := by
+  unfold step
+  by_cases hu : s.ub = true
+  · simp [hu]
+  · have : s.stack = [] := by simpa [halted, hu] using h
+    simp [hu, this]
+
+theorem run_of_halted (E : Env) : ∀ (k : Nat) (s : St), halted s = true → run E k s = s
+  | 0, _, _ => rfl
+  | k + 1, s, h => by rw [run, step_of_halted E s h]; exact run_of_halted E k s h
+
+/-- `l0: wait 0; goto l0` — the zero-delay yielding loop `while (1) { wait 0 }`, protection on, 20 ms limit,
+    clock +1 ms per reading -/
+def exZero : Env := { cfg := { prot := true, maxExec := 20, maxDepth := 5 }, prog := [[.wait 0, .jmp 0]], inc := fun _ => 1 }
+
+set_option maxRecDepth 1000000 in
+/-- **A loop that yields with zero delay never returns to the host although protection is on** — full
+    statement: `∀ k, halted (run exZero k (startCall exZero {} 0)) = false`.  Every `wait 0` re-times the thread
+    as due; `ExecuteRunning`, called at the end of the same `ScriptExecuteInternal`, resumes it at once with
+    a fresh deadline, so no activation ever reaches its limit.  *Proved* (`_partial`): the host call has not
+    returned after any `k ≤ 600` steps; at step 600 the injected clock shows 401 ms — twenty
+    times the limit —, no exception was raised, exactly one thread exists and the native stack still holds the
+    host call's `ScriptThread::Execute` frame.  *Missing* for the full statement: the cycle invariant over the
+    seven state shapes of one round (the machine is not periodic: the clock differs in every round).  The engine
+    behaves the same way (DESIGN.md 12.2; finite version in corpus/C14/zero-wait-fresh-deadline.json: 40 rounds,
+    491 ms in one call under a 20 ms limit, engine == model); this is why `Nest` excludes `wait` / `waitthread`. -/
+theorem C14_unwind_zero_wait_never_returns_partial :
+    (∀ k, k ≤ 600 → halted (run exZero k (startCall exZero {} 0)) = false) ∧
+    (run exZero 600 (startCall exZero {} 0)).now = 401 ∧ (run exZero 600 (startCall exZero {} 0)).exc = none ∧
+    (run exZero 600 (startCall exZero {} 0)).threads.length = 1 ∧
+    (run exZero 600 (startCall exZero {} 0)).stack.getLast? = some .thrExec := by
+  have h600 : halted (run exZero 600 (startCall exZero {} 0)) = false := by decide
+  refine ⟨?_, by decide, by decide, by decide, by decide⟩
+  intro k hk
+  cases hh : halted (run exZero k (startCall exZero {} 0)) with
+  | false => rfl
+  | true =>
+    have := run_of_halted exZero (600 - k) _ hh
+    rw [← run_add, show k + (600 - k) = 600 by omega] at this
+    rw [this] at h600
+    rw [hh] at h600
+    cases h600
 
 end Morfuse.Unwind
